@@ -4,7 +4,8 @@ R1  CONST  all 14 lookup tables + rcon + number_of_rounds equal tables regenerat
 R2  LANES  AES.encrypt / AES.decrypt / AES.__init__ interpreted over symbolic key and block bytes in a byte-lane term domain
            and compared, byte for byte, with FIPS-197 (cipher, equivalent inverse cipher, key expansion) written in the same domain.
 R4  FLOW   ECB / CBC mode equations.   R5-R9 adapter rules.   R10 pad / create_AES128 pass-through.
-Not decided: CFB/OFB/CTR and BlockFeeder behaviour for arbitrary splits."""
+R11 (rules/c16stream.py) ECB/CBC/CFB/OFB/CTR objects and Encrypter/Decrypter feeders, call by call, for enumerated lengths and splits with symbolic
+           contents: every output byte equals the SP 800-38A term.  R12 no state shared between cipher objects."""
 from __future__ import annotations
 
 from typing import Dict, List
@@ -17,7 +18,7 @@ from bfsa.load import AnalysisError, NotConst
 from bfsa.symexec import Exec
 from bfsa.terms import C, NONE, Term, cval, is_const, mk, show, sym
 
-from rules import adapter
+from rules import adapter, c16stream
 
 LEVEL = "other"
 AESQ = "register_crypto_plugin.pyaes.aes"
@@ -468,8 +469,10 @@ def run(prog, chk, tier):
                        "and the key schedule are interpreted by the structural abstract interpreter with concrete control and symbolic bytes; the resulting terms are evaluated "
                        "in a byte-lane XOR-normal-form domain and must equal, byte for byte, FIPS-197 (cipher, equivalent inverse cipher, key expansion for 128/192/256-bit "
                        "keys) written in the same domain. CBC/ECB equations, feeder finalisation with padding disabled and the registered adapter (fresh mode object per call, "
-                       "zero padding, MAC = last block, length-preserving decrypt, no state kept) are checked by data provenance. CFB/OFB/CTR and arbitrary feeder splits are "
-                       "not decided.")
+                       "zero padding, MAC = last block, length-preserving decrypt, no state kept) are checked by data provenance. The five modes of operation and the padded "
+                       "stream feeders are interpreted call by call on one abstract heap for enumerated lengths / splits with symbolic contents, the block function abstracted to "
+                       "E_k / D_k; each output byte must be the SP 800-38A term for the concatenated input. Default arguments, class-level containers and global statements of the "
+                       "plug-in are scanned for state shared between cipher objects.")
     table_rules(prog, chk, "C16")
     block_rules(prog, chk, "C16", tier)
     key_schedule_rules(prog, chk, "C16")
@@ -477,5 +480,7 @@ def run(prog, chk, tier):
     adapter.adapter_rules(prog, chk, "C16")
     adapter.pad_rule(prog, chk, "C16")
     adapter.mac_definition_rules(prog, chk, "C16")
+    c16stream.run_all(prog, chk, "C16", tier)
     chk.assume("table expansion in the lane domain is licensed by the table audit of the same run (single TABLE_SPEC)")
-    chk.assume("CFB / OFB / CTR / Counter and BlockFeeder buffering for arbitrary input splits are not analysed")
+    chk.assume("mode / feeder scenarios treat the block function as an uninterpreted E_k / D_k; this is licensed by the block and key-schedule rules of the same run")
+    chk.assume("input lengths and splits of the mode / feeder scenarios are enumerated (listed in the evidence); contents, keys and IVs are universally quantified")
